@@ -46,7 +46,7 @@ CONFIG = {
     "modelled": ["api.VerifyJwt", "api.VerifyRefreshJwt", "api.VerifyEmailJwt", "api.ParseClaimString/ParseClaimInt", "api.ParseJwt (on the abstraction)",
                  "api.CreateToken/CreateRefreshToken/CreateEmailToken (claims, expiry, signing key)", "api.GetJwt", "api.Refresh",
                  "api.loginRequiredProcess/loginRequiredPathProcess (through LoginRequiredJSON/LoginRequiredPathJSON)",
-                 "api.GetTokenInfo", "api.GetRefreshTokenInfo", "api.userInfoIsValidEmailUser (through api.ChangeEmail, api.SetIDEmail and GetEmailTokenInfo on a private BBSHOME whose fixture grants PERM_SYSOP / PERM_ACCOUNTS / PERM_ACCTREG to three users)", "api.GetEmailTokenInfo"],
+                 "api.GetTokenInfo", "api.GetRefreshTokenInfo", "api.userInfoIsValidEmailUser (through api.ChangeEmail, api.SetIDEmail and GetEmailTokenInfo on a private BBSHOME whose fixture grants PERM_SYSOP / PERM_ACCOUNTS / PERM_ACCTREG to three users)", "api.GetEmailTokenInfo", "api.config / setStringConfig / setBytesConfig / setIntConfig (interpreter over the regenerated lines; setters pinned as plain forwarders)"],
     "assumptions": [
         "a pair is two tokens created back to back: the oracle's tolerance for the expiry distance of an access/refresh pair is 2 s (its own constant; theorem pair_tolerance_is_two_seconds pins the server's)",
         "bbs.IsSysop of the requester is an input of the model (the harness asks the real function on its fixture); what ChangeEmail/SetIDEmail do after the gate (bbs.ChangeEmail, the allow/reject mail lists, ChangeUserLevel2) is not modelled — the oracle only reads the resulting PERM2_ID_EMAIL bit",
